@@ -70,21 +70,39 @@ def mixed_ops(rng, pt=gridpt):
     """any op order: curves first, after Close, after MoveTo, repeated Close..."""
     ops = []
     n = rng.randrange(1, 8)
+    last = None         # the point the next op starts from (None: none yet / unknown after Close)
     for i in range(n):
         c = rng.random()
         if c < 0.2:
-            ops.append("M " + fpt(*pt(rng)))
+            last = pt(rng)
+            ops.append("M " + fpt(*last))
         elif c < 0.45:
-            ops.append("L " + fpt(*pt(rng)))
+            last = pt(rng)
+            ops.append("L " + fpt(*last))
         elif c < 0.65:
             a, b = pt(rng), pt(rng)
             if rng.random() < 0.1 and ops:
                 b = a
+            elif rng.random() < 0.06 and last is not None:
+                b = last                     # a loop: the curve ends where it starts
             ops.append("Q %s %s" % (fpt(*a), fpt(*b)))
+            last = b
         elif c < 0.85:
-            ops.append("C %s %s %s K 0" % (fpt(*pt(rng)), fpt(*pt(rng)), fpt(*pt(rng))))
+            a, b, e = pt(rng), pt(rng), pt(rng)
+            d = rng.random()
+            if d < 0.06:
+                b = a                        # coincident control points
+            elif d < 0.10 and last is not None:
+                e = last                     # a loop: the curve ends where it starts
+            elif d < 0.13 and last is not None:
+                a = last                     # first control point on the start point
+            elif d < 0.16:
+                b = e                        # second control point on the end point
+            ops.append("C %s %s %s K 0" % (fpt(*a), fpt(*b), fpt(*e)))
+            last = e
         else:
             ops.append("Z")
+            last = None
     return ops
 
 
